@@ -14,6 +14,7 @@ EXPLANATION = (
     "such (needs C04/C10/C11's mechanisms composed)."
     " Fifth round: [STATE-DEPS] configuration is what __init__ derives from its parameters; attributes bound to something fresh are the decoder's own state, of which only the source map and the reassembly buffers may decide what is returned. [DEFAULTS-RO] aliases of a mutable default are followed through locals, loop variables over literal tuples and values returned by callees; the witnesses are in-place edits and un-copied stores into an instance."
     " Seventh round: [RA-SEQ] (C04's clause) is run here as well: a frame with another sequence counter never joins the record of an abandoned message."
+    " Eighth round: [INSTANCE-STATE] reports a store after construction only when it binds the attribute to a module-level or class-level mutable object (an object every instance sees); late per-instance state as such is STATE-DEPS' subject."
 )
 ASSUMPTIONS = ["CPython ast parser", "method resolution inside ioclient.py by class-body order (single inheritance)", "a comprehension / list() / set() / split makes a copy"]
 
